@@ -33,6 +33,7 @@ import (
 	"github.com/ipld/go-ipld-prime/traversal/selector/builder"
 
 	"verif/gen"
+
 	"verif/model"
 	"verif/scen"
 	"verif/scen/bindhist"
@@ -60,7 +61,7 @@ func (S) Info() scen.Info {
 			"goroutine scheduling": "stub: seeded one-at-a-time scheduler; yields between operations, between reader chunks, inside visitor and transform callbacks",
 		},
 		QuickUnits: 50000, ThoroughUnits: 3000000, QuickSecs: 240, ThoroughSecs: 1200,
-		ProbeKeys: []string{"probe.reset_producer", "probe.assign_then_reset", "probe.copy_and_extend", "probe.largebytes_interleaved", "probe.two_readers_same_node", "probe.subset_match_bytes", "probe.subset_match_string", "probe.focused_transform", "probe.walk_transform", "probe.abandoned_builder", "probe.typed_node_in_pool", "probe.stream_bytes_node", "probe.callback_interleaved", "probe.loaded_node_in_pool", "probe.load_while_holding_loaded_nodes", "probe.iterator_nodes_retained", "probe.lookup_result_retained", "probe.extended_after_assign", "probe.stream_reader_unusual_but_legal", "probe.stream_read_fault_fired", "probe.assign_into_specific_generic_builder", "probe.vocabulary_node_in_pool"},
+		ProbeKeys: []string{"probe.reset_producer", "probe.assign_then_reset", "probe.copy_and_extend", "probe.largebytes_interleaved", "probe.two_readers_same_node", "probe.subset_match_bytes", "probe.subset_match_string", "probe.focused_transform", "probe.walk_transform", "probe.abandoned_builder", "probe.typed_node_in_pool", "probe.stream_bytes_node", "probe.callback_interleaved", "probe.loaded_node_in_pool", "probe.load_while_holding_loaded_nodes", "probe.iterator_nodes_retained", "probe.lookup_result_retained", "probe.extended_after_assign", "probe.stream_reader_unusual_but_legal", "probe.stream_read_fault_fired", "probe.assign_into_specific_generic_builder", "probe.vocabulary_node_in_pool", "probe.stale_assembler_handles_used"},
 		EventsKey: "events",
 	}
 }
@@ -290,7 +291,7 @@ func (S) RunTape(t *sim.Tape, st *sim.Stats, keepLog bool) *sim.Outcome {
 	total := 0
 	for h := 0; h < nh; h++ {
 		for total < 80 && len(plans[h]) < 30 && t.Begin("step", 92) {
-			plans[h] = append(plans[h], step{t.Choice(21, "op"), t.Choice(64, "a"), t.Choice(64, "b"), t.Choice(64, "c")})
+			plans[h] = append(plans[h], step{t.Choice(23, "op"), t.Choice(64, "a"), t.Choice(64, "b"), t.Choice(64, "c")})
 			total++
 			t.End()
 		}
@@ -309,6 +310,9 @@ func (S) RunTape(t *sim.Tape, st *sim.Stats, keepLog bool) *sim.Outcome {
 			}
 		})
 	}
+	// Holders interleave between their steps, between reader chunks and inside callbacks -- not inside
+	// library calls: a step may use a live builder, and builders are single-caller objects (sharing
+	// FINISHED nodes between truly concurrent callers is C20's matter).
 	s.Run()
 	for _, tk := range s.Finished {
 		if tk.Panic != nil {
@@ -939,6 +943,67 @@ func (w *world) step(h int, rd *reader, op, a, b, c int) string {
 		w.share = true
 		w.st.Inc("probe.iterator_nodes_retained")
 		return fmt.Sprintf("retain-iterator-nodes(%s#%d)", e.origin, i)
+	case 21, 22: // assembler handles kept past Finish / Build are used again: whatever they answer, the built node stays as it is
+		var np datamodel.NodePrototype = basicnode.Prototype.Any
+		if c&1 != 0 {
+			np = basicnode.Prototype.Map
+		}
+		nb := np.NewBuilder()
+		var ma datamodel.MapAssembler
+		var ka, va datamodel.NodeAssembler
+		var la datamodel.ListAssembler
+		var built datamodel.Node
+		want := model.MapV()
+		pan := safe(func() {
+			var err error
+			if ma, err = nb.BeginMap(-1); err != nil {
+				return
+			}
+			ea, _ := ma.AssembleEntry("a")
+			ea.AssignInt(1)
+			want.Put("a", model.IntV(1))
+			if op == 21 {
+				// a key is offered through a key assembler and refused as a repetition; the handle is kept
+				ka = ma.AssembleKey()
+				ka.AssignString("a")
+			} else {
+				ka = ma.AssembleKey()
+				ka.AssignString("k")
+				va = ma.AssembleValue()
+				va.AssignString("v")
+				want.Put("k", model.StringV("v"))
+			}
+			ea, _ = ma.AssembleEntry("l")
+			la, _ = ea.BeginList(-1)
+			la.AssembleValue().AssignInt(int64(c))
+			la.Finish()
+			want.Put("l", model.ListV(model.IntV(int64(c))))
+			if ma.Finish() == nil {
+				built = nb.Build()
+			}
+		})
+		if pan != "" || built == nil {
+			return "stale-assemblers-skip"
+		}
+		idx := w.add(built, want, "builder-whose-assembler-handles-are-kept", nil)
+		w.s.Yield("stale")
+		// every kept handle is used once more; refusals and panics are fine
+		safe(func() { ka.AssignString("zz-stale-key") })
+		safe(func() {
+			if va != nil {
+				va.AssignString("stale value")
+			}
+		})
+		safe(func() { ma.AssembleValue().AssignInt(99) })
+		safe(func() {
+			if ea, err := ma.AssembleEntry("zz-stale-entry"); err == nil {
+				ea.AssignInt(7)
+			}
+		})
+		safe(func() { la.AssembleValue().AssignInt(1234) })
+		safe(func() { ma.Finish() })
+		w.st.Inc("probe.stale_assembler_handles_used")
+		return fmt.Sprintf("stale-assemblers(#%d)", idx)
 	case 19, 20: // nodes returned by lookups are retained (by key, by index, by segment, by node)
 		if e.snap.K != model.Map && e.snap.K != model.List || len(e.snap.Vals) == 0 {
 			return "lookup-skip"
